@@ -611,7 +611,12 @@ impl<F: Read + Seek> CompoundFile<F> {
         {
             fat.pop();
         }
-        while fat.len() < num_sectors as usize {
+        // (Sectors beyond what the FAT sectors cover, e.g. trailing garbage
+        // appended to the file, have no FAT entry that could be updated, so
+        // they must not be handed out as free sectors; they are simply
+        // overwritten when the file grows.)
+        let num_covered_sectors = difat.len() * (sector_len / size_of::<u32>());
+        while fat.len() < (num_sectors as usize).min(num_covered_sectors) {
             fat.push(consts::FREE_SECTOR);
         }
 
